@@ -40,10 +40,17 @@ func recID(r *Rec) string {
 
 type enumerator struct {
 	ctx *seq.Ctx
+	// rekey, when set, maps the generic violation key of a (program, record) case to a more specific class
+	rekey func(prog []*Step, in *Rec, key string) string
 }
 
 // emit passes one (program, record) case to the driver. in2 is the record sent second through the same instance.
 func (e *enumerator) emit(scope, id string, prog []*Step, in, in2 *Rec) {
+	if e.rekey != nil {
+		rk := e.rekey
+		e.emitKeyed(scope, id, prog, in, in2, func(key string) string { return rk(prog, in, key) })
+		return
+	}
 	e.emitKeyed(scope, id, prog, in, in2, nil)
 }
 
@@ -168,7 +175,8 @@ func main() {
 			"(fields, record.Unescaped, PASS/DROP, label counters count+bytes) with the reference interpreter ref.go. Groups: every leaf transform alone over its parameter menu (slice bounds " +
 			"{none,0,1,-1,-5,99}^2; boundaries {none,'[','] - '}^2 x classes {*,[a-z],[^ ],[0-9a-f-]} x maxLen {1,5,100}; truncate maxLen 1..6 x suffix {'.','...','…'}; ...) x boundary-biased " +
 			"values generated per configuration (empty, one char, label exactly filling / one byte beyond the search range, blanks only, multi-byte at the cut, escapes); every match operator x " +
-			"argument menu x value menu and all pairs of a reduced operator menu (AND); all ordered pairs of a reduced leaf menu, plain and with the second step under an if; every leaf of the " +
+			"argument menu x value menu under three carriers (if, switch case, drop), all pairs of a reduced operator menu (AND), and every glob of 1..3 (quick) / 1..4 (thorough) tokens from " +
+			"{a,b,*,?,[ab],{a,b},{a*,b},**} x every value over {a,b,é} up to length 4; all ordered pairs of a reduced leaf menu, plain and with the second step under an if; every leaf of the " +
 			"reduced menu under every control context path (if / switch first-case / switch second-case / block, alone / before / after a marker step, condition true / false) of depth <=2 (quick) / " +
 			"<=3 (thorough); all control programs of if/switch/block with positional marker leaves and 100% drops, breadth <=2, depth 2 (quick) / 3 (thorough); sampled drop: every rate 1..99 x 4 " +
 			"wrappers x 3 match patterns, every prefix up to 300 matched records. Non-trivial = the reference changes something observable for the record (a field, the flag, DROP or a counter). " +
